@@ -14,8 +14,8 @@ func init() { register("C18", propC18) }
 
 func propC18() *Property {
 	return &Property{
-		ID:      "C18",
-		Decides: "R18.1 the UDP-associate frame written and the frame read are the documented `0x00 | uint16 BE length | data | 0xff` (offsets: marker 0, length 1..2, data from 3, trailer at 3+len, buffer 4+len); R18.2 every read of the carrying stream in the frame reader is an io.ReadFull (any chunking of the stream); R18.3 framing violations and oversize are errors with n == 0, the writer refuses more than 65535 bytes before building a frame, and the relay loops leave their loop on a tunnel read error instead of continuing on a desynchronised stream; R18.4 addressing: the header remembered for replies is a private copy (does not alias the reused receive buffer), is stored and looked up under the address string of the very datagram / reply it belongs to, and a reply header otherwise is built from the address ReadFromUDP returned; the destination of a relayed datagram is taken from its own header; R18.5 the SOCKS5 address codec: reader and writer agree on the address-type bytes, the lengths 4/16/1+n and the big-endian port.",
+		ID:         "C18",
+		Decides:    "R18.1 the UDP-associate frame written and the frame read are the documented `0x00 | uint16 BE length | data | 0xff` (offsets: marker 0, length 1..2, data from 3, trailer at 3+len, buffer 4+len); R18.2 every read of the carrying stream in the frame reader is an io.ReadFull (any chunking of the stream); R18.3 framing violations and oversize are errors with n == 0, the writer refuses more than 65535 bytes before building a frame, and the relay loops leave their loop on a tunnel read error instead of continuing on a desynchronised stream; R18.4 addressing: the header remembered for replies is a private copy (does not alias the reused receive buffer), is stored and looked up under the address string of the very datagram / reply it belongs to, and a reply header otherwise is built from the address ReadFromUDP returned; the destination of a relayed datagram is taken from its own header; R18.5 the SOCKS5 address codec: reader and writer agree on the address-type bytes, the lengths 4/16/1+n and the big-endian port.",
 		NotDecided: "behaviour for every size and content (e.g. empty datagrams through UDPAssociateWrapper.ReadFrom); reordering inside the tunnel (a stream preserves order by construction); loss in the UDP legs.",
 		Rules: []Rule{
 			{ID: "R18.1", Floor: 3, Text: "frame writer/reader vs the documented frame", Run: func(c *RC) { ruleAssociateFrame(c); r18_1(c) }},
@@ -84,25 +84,25 @@ func r18_2(c *RC) {
 		return
 	}
 	for _, f := range withHelpers(p, rd, 2) {
-	instrs(f, func(_ *ssa.BasicBlock, _ int, in ssa.Instruction) {
-		cl, ok := in.(ssa.CallInstruction)
-		if !ok {
-			return
-		}
-		id := calleeID(cl)
-		switch {
-		case id == "io.ReadFull":
-			if f := fieldOrigin(cl.Common().Args[0]); f != nil && f.Name() == "Conn" {
-				c.OK("stream-read@Read", in.Pos(), "io.ReadFull on the carrying stream")
+		instrs(f, func(_ *ssa.BasicBlock, _ int, in ssa.Instruction) {
+			cl, ok := in.(ssa.CallInstruction)
+			if !ok {
+				return
 			}
-		case cl.Common().IsInvoke() && (cl.Common().Method.Name() == "Read" || cl.Common().Method.Name() == "ReadFrom"):
-			if f := fieldOrigin(cl.Common().Value); f != nil && f.Name() == "Conn" {
-				c.Bad("stream-read@Read", in.Pos(), "the frame reader calls Conn.%s directly: a stream that delivers fewer bytes than asked (any TCP chunk border inside the header) is mis-parsed and the tunnel desynchronises", cl.Common().Method.Name())
+			id := calleeID(cl)
+			switch {
+			case id == "io.ReadFull":
+				if f := fieldOrigin(cl.Common().Args[0]); f != nil && f.Name() == "Conn" {
+					c.OK("stream-read@Read", in.Pos(), "io.ReadFull on the carrying stream")
+				}
+			case cl.Common().IsInvoke() && (cl.Common().Method.Name() == "Read" || cl.Common().Method.Name() == "ReadFrom"):
+				if f := fieldOrigin(cl.Common().Value); f != nil && f.Name() == "Conn" {
+					c.Bad("stream-read@Read", in.Pos(), "the frame reader calls Conn.%s directly: a stream that delivers fewer bytes than asked (any TCP chunk border inside the header) is mis-parsed and the tunnel desynchronises", cl.Common().Method.Name())
+				}
+			case id == "io.ReadAtLeast":
+				c.Bad("stream-read@Read", in.Pos(), "io.ReadAtLeast may read past the frame")
 			}
-		case id == "io.ReadAtLeast":
-			c.Bad("stream-read@Read", in.Pos(), "io.ReadAtLeast may read past the frame")
-		}
-	})
+		})
 	}
 }
 
@@ -542,7 +542,6 @@ func r18_5(c *RC) {
 		c.Bad("port-order", rd.Pos(), "port byte order differs between reader (high byte first=%v) and writer (%v)", shl, order)
 	}
 }
-
 
 // guardFailIdx: the successor index of a `len(p) > 65535` guard (in any
 // spelling) on which the packet is too long.
